@@ -7,12 +7,18 @@ package main
 // rejected event changed nothing.
 
 import (
+	"bytes"
 	"crypto/ecdsa"
+	"crypto/elliptic"
+	"crypto/sha256"
+	"encoding/json"
 	"fmt"
+	"math/big"
 	"math/rand"
 	"sort"
 	"strings"
 
+	"github.com/btcsuite/btcd/btcec"
 	"github.com/mosaicnetworks/babble/src/crypto/keys"
 	hg "github.com/mosaicnetworks/babble/src/hashgraph"
 )
@@ -140,6 +146,50 @@ func safeVerify(e *hg.Event) (ok bool, panicked bool) {
 	return ok && err == nil, false
 }
 
+// specVerify: what a signature has to cover, recomputed here without the repository's Hash / Sign /
+// Verify functions: the digest of an event is the SHA-256 of the JSON encoding of its *whole* body,
+// the digest of a membership request is the SHA-256 of the JSON encoding of its *whole* body (type
+// and peer), signatures are "r|s" in base 36 over that digest, by the event's creator and by the
+// peer the request concerns. Only the struct definitions, encoding/json and crypto/ecdsa are used.
+func specVerify(e *hg.Event) (ok bool) {
+	defer func() {
+		if rec := recover(); rec != nil {
+			ok = false
+		}
+	}()
+	digest := func(v interface{}) []byte {
+		var b bytes.Buffer
+		if err := json.NewEncoder(&b).Encode(v); err != nil {
+			panic(err)
+		}
+		h := sha256.Sum256(b.Bytes())
+		return h[:]
+	}
+	check := func(pub []byte, dg []byte, sig string) bool {
+		parts := strings.Split(sig, "|")
+		if len(parts) != 2 {
+			return false
+		}
+		rr, ok1 := new(big.Int).SetString(parts[0], 36)
+		ss, ok2 := new(big.Int).SetString(parts[1], 36)
+		if !ok1 || !ok2 {
+			return false
+		}
+		x, y := elliptic.Unmarshal(btcec.S256(), pub) // secp256k1, uncompressed point
+		if x == nil {
+			return false
+		}
+		return ecdsa.Verify(&ecdsa.PublicKey{Curve: btcec.S256(), X: x, Y: y}, dg, rr, ss)
+	}
+	for i := range e.Body.InternalTransactions {
+		itx := e.Body.InternalTransactions[i]
+		if !check(itx.Body.Peer.PubKeyBytes(), digest(&itx.Body), itx.Signature) {
+			return false
+		}
+	}
+	return check(e.Body.Creator, digest(&e.Body), e.Signature)
+}
+
 func runC07(r *Result, thorough bool) {
 	r.Rule = "valid gossip DAGs (3-6 validators, optional joiner) fed to a real Hashgraph with hostile variations injected at random points " +
 		"(tampered payload, wrong/duplicate/negative/skipped index re-signed by the creator, first event with index != 0, unknown or future parents, " +
@@ -183,7 +233,14 @@ func runC07(r *Result, thorough bool) {
 				r.Inc("verify_panics_skipped", 1)
 				return
 			}
-			c.Op(d.defLineRaw(g, spName, opName, ok))
+			// the signature bit handed to the model is recomputed independently (whole bodies covered)
+			spec := specVerify(&hg.Event{Body: g.ev.Body, Signature: g.ev.Signature})
+			if spec != ok {
+				r.Violate("impl-violation", fmt.Sprintf("Event.Verify says %v for a %s attempt, but the signatures %s the whole bodies (event body, membership request type and peer)",
+					ok, kind, map[bool]string{true: "do cover", false: "do not cover"}[spec]), "signature-scope:"+kind, map[string]interface{}{"kind": kind, "ops": clip(c.Ops, 300)})
+			}
+			r.Inc("signature_checks_recomputed", 1)
+			c.Op(d.defLineRaw(g, spName, opName, spec))
 			before := nd.storeDigest()
 			var err error
 			func() {
@@ -282,6 +339,18 @@ func runC07(r *Result, thorough bool) {
 				e.Body.Timestamp = base.ev.Timestamp()
 				e.Signature = base.ev.Signature
 				g = &gEvent{name: name, num: -1, ev: e, creator: creator, txs: base.txs, itx: base.itx}
+			} else if kind == "itx-replayed-type-flipped" || kind == "itx-replayed-peer-changed" {
+				// a genuine request signed by the peer it concerns, replayed with another type / address
+				itx := hg.NewInternalTransactionJoin(*foreign.peer)
+				itx.Sign(foreign.key)
+				desc := fmt.Sprintf("+%d", len(d.parts))
+				if kind == "itx-replayed-type-flipped" {
+					itx.Body.Type = hg.PEER_REMOVE
+					desc = fmt.Sprintf("-%d", len(d.parts))
+				} else {
+					itx.Body.Peer.NetAddr = "10.6.6.6:1337"
+				}
+				g = d.mkEvent(name, creator, pub, key, spHex, opHex, "", "", idx, txs, base.txs, []hg.InternalTransaction{itx}, []string{desc}, base.ev.Timestamp())
 			} else if kind == "bad-itx-signature" {
 				itx := hg.NewInternalTransactionJoin(*foreign.peer)
 				itx.Sign(c0.key) // must be signed by the peer it concerns
@@ -366,7 +435,7 @@ func runC07(r *Result, thorough bool) {
 		}
 		wireKinds := []string{"wire-first-negative", "wire-first-negative", "wire-index-shift", "wire-index-shift", "wire-selfparent-back", "wire-selfparent-back", "wire-selfparent-negative", "wire-selfparent-negative", "wire-otherparent-negative"}
 		allKinds := []string{"index+1", "index-1", "index-same-as-parent", "index-negative", "index-skip", "unknown-selfparent", "unknown-otherparent",
-			"foreign-creator", "wrong-key", "selfparent-of-other", "no-selfparent", "tampered-payload", "bad-itx-signature"}
+			"foreign-creator", "wrong-key", "selfparent-of-other", "no-selfparent", "tampered-payload", "bad-itx-signature", "itx-replayed-type-flipped", "itx-replayed-peer-changed"}
 		for i, g := range d.events {
 			// hostile variations of the event that is about to be inserted
 			if rng.Intn(3) == 0 {
